@@ -1,9 +1,9 @@
-import subprocess,sys,os,re
-# helper: make a patch from a python substitution: mkpatch.py <file> <old> <new> <out>
-f,old,new,out=sys.argv[1:5]
-src=open('/repo/'+f).read()
-assert src.count(old)>=1,(f,old)
-new_src=src.replace(old,new,1)
-import tempfile,difflib
-d=difflib.unified_diff(src.splitlines(True),new_src.splitlines(True),'a/'+f,'b/'+f)
-open(out,'w').write(''.join(d))
+#!/usr/bin/env python3
+"""mkpatch.py <file> <old> <new> [<old2> <new2> ...] <out>: make a unified diff against /repo's file."""
+import sys, difflib
+f = sys.argv[1]; out = sys.argv[-1]; pairs = sys.argv[2:-1]
+src = open('/repo/' + f).read(); new = src
+for i in range(0, len(pairs), 2):
+    assert new.count(pairs[i]) >= 1, (f, pairs[i])
+    new = new.replace(pairs[i], pairs[i + 1], 1)
+open(out, 'w').write(''.join(difflib.unified_diff(src.splitlines(True), new.splitlines(True), 'a/' + f, 'b/' + f)))
